@@ -139,7 +139,7 @@ theorem plan_skip {P : Params} {t : Tree} {o : Opts} {s : BSt} {l : Label} {d : 
       · cases this
     · split at h <;> cases h
 
-/-- A skipped target's record lists exactly as many dependencies as the target has now (D28 repair). -/
+/-- A skipped target's record lists exactly as many dependencies as the target has now (D29 repair). -/
 theorem plan_skip_length {P : Params} {t : Tree} {o : Opts} {s : BSt} {l : Label} {d : Def} {info : Rec}
     (h : plan P t o s l d = .skip info) : (!P.depCount || info.deps.length == (depsOf t l d).length) = true := by
   unfold plan at h
